@@ -51,6 +51,7 @@ THEOREMS = [
     'C09_volume_gets_leaf_material', 'C09_compositions_exact',
     'C09_compositions_distinct', 'C09_geomcomp_name_has_composition',
     'C09_write_compositions', 'C09_block_head', 'C09_block_written',
+    'C09_normal_form_accepted',
     'C09_point_gets_leaf_material_linked', 'C09_density_type_by_sign',
     'C09_point_composition_written_linked', 'C09_fill_models_agree_linked',
     'C09_lattice_element_material_linked',
@@ -134,6 +135,44 @@ def run_cases(*args, **kwargs):
     if errs and all(re.search(r'rc=-\d+', e) for e in errs):
         bad, errs = common.run_case_files(*args, **kwargs)
     return bad, errs
+
+
+def repo_attr(module, *names):
+    '''A (possibly private) name of the repository, or None when a rewrite
+    removed or renamed it.  Only for helpers the anchors do not name.'''
+    import importlib
+    try:
+        obj = importlib.import_module(module)
+    except ImportError:
+        return None
+    for name in names:
+        obj = getattr(obj, name, None)
+        if obj is None:
+            return None
+    return obj
+
+
+def skip_helper(res, tie, name):
+    '''A helper-level tie is skipped when its helper is gone; the same code is
+    exercised through the public entry points by the corpus and the deck
+    sweep of the same run.'''
+    res.extra.setdefault('skipped', []).append(
+        f'{tie}: helper {name} not present')
+    res.count('skipped:' + tie)
+
+
+PARSER_MOD = 't4_geom_convert.Kernel.FileHandlers.Parser.ParseMCNPCell'
+
+
+def make_worker(parser):
+    '''ParseMCNPCell instance for the helper-level ties, or None.'''
+    cls = repo_attr(PARSER_MOD, 'ParseMCNPCell')
+    if cls is None:
+        return None
+    try:
+        return cls(parser, None, {})
+    except TypeError:
+        return None
 
 
 def ccell(c):
@@ -424,12 +463,14 @@ def tie_material(res, tier, rng):
 def tie_likebut(res, tier, rng):
     '''parse_one_cell_worker on (material, geometry, options) triples as
     apply_but builds them for LIKE n BUT cells vs Model.cell_material.'''
-    from t4_geom_convert.Kernel.FileHandlers.Parser.ParseMCNPCell import \
-        ParseMCNPCell
     n = 200 if tier == 'quick' else 2000
     cases, meta = [], []
     with impl.mip_parser(COMP_DECK) as parser:
-        worker = ParseMCNPCell(parser, None, {})
+        worker = make_worker(parser)
+        one_cell = getattr(worker, 'parse_one_cell_worker', None)
+        if one_cell is None:
+            skip_helper(res, 'tie:likebut', 'ParseMCNPCell.parse_one_cell_worker')
+            return
         for i in range(n):
             mat = rng.choice(['0', '1', '2', '12', '01', '3'])
             toks = [mat]
@@ -451,7 +492,7 @@ def tie_likebut(res, tier, rng):
             material = ' '.join(toks)
 
             def call():
-                cell = worker.parse_one_cell_worker(0, None,
+                cell = one_cell(0, None,
                                                     (material, '-1', options))
                 return (str(cell.materialID), cell.density)
             out = guarded(call)
@@ -555,13 +596,15 @@ def ccard(card):
 def tie_likechain(res, tier, rng):
     '''ParseMCNPCell.parse_one_cell (the LIKE loop, apply_but, the keyword
     scan) on dictionaries of parsed cards vs Model.card_material.'''
-    from t4_geom_convert.Kernel.FileHandlers.Parser.ParseMCNPCell import \
-        ParseMCNPCell
     n = 120 if tier == 'quick' else 1200
     cases, meta = [], []
     depth_seen = 0
     with impl.mip_parser(COMP_DECK) as parser:
-        worker = ParseMCNPCell(parser, None, {})
+        worker = make_worker(parser)
+        one_cell = getattr(worker, 'parse_one_cell', None)
+        if one_cell is None:
+            skip_helper(res, 'tie:likechain', 'ParseMCNPCell.parse_one_cell')
+            return
         for i in range(n):
             cards = gen_like_cards(rng, wild=i % 3 == 0)
             parsed = OrderedDict()
@@ -574,7 +617,7 @@ def tie_likechain(res, tier, rng):
                                  % card[1], render_options(card[2], rng))
             for rank, k in enumerate(cards):
                 def call(rank=rank, k=k):
-                    cell = worker.parse_one_cell(parsed, rank, None, parsed[k])
+                    cell = one_cell(parsed, rank, None, parsed[k])
                     return (str(cell.materialID), cell.density)
                 out = guarded(call)
                 hops, cur = 0, cards[k]
@@ -615,12 +658,19 @@ def tie_likechain(res, tier, rng):
 # ---------------------------------------------------------------------------
 
 def impl_treat_fill(cells):
+    from collections import defaultdict
     from t4_geom_convert.Kernel.Volume.CellConversion import CellConversion
-    from t4_geom_convert.Kernel.Volume.ByUniverse import by_universe
     conc = concrete_cells(cells)
     free_key = max(conc) + 1
     conv = CellConversion(free_key, 1, {}, {}, {}, conc)
-    universes = by_universe(conc)
+    by_universe = repo_attr('t4_geom_convert.Kernel.Volume.ByUniverse',
+                            'by_universe')
+    if by_universe is not None:
+        universes = by_universe(conc)
+    else:       # the argument pot_fill expects: cell keys by universe
+        universes = defaultdict(list)
+        for k, v in conc.items():
+            universes[v.universe].append(k)
     fill_keys = [k for k, v in conc.items()
                  if v.fillid is not None and v.universe == 0]
     returned = []
@@ -852,6 +902,11 @@ COMP_DECK = ('materials only\n1 0 -1 imp:n=1\n2 0 1 imp:n=0\n\n1 so 1\n\n'
              'm1 1001 2 8016 1\nm2 26056 1\nm3 92235 -0.05 92238 -0.95\n'
              'm12 6012 1\n')
 COMP_KEYS = [1, 2, 3, 12]
+# what compositionConversionMCNPToT4 + extract_isotopes_fractions give on it
+COMP_CARDS = [(1, True, [('H1', '2'), ('O16', '1')]),
+              (2, True, [('FE56', '1')]),
+              (3, False, [('U235', '0.05'), ('U238', '0.95')]),
+              (12, True, [('C12', '1')])]
 
 
 def impl_comp(parser, conc_cells, keys):
@@ -955,21 +1010,37 @@ def tie_writecomp(res, tier, rng):
     C10's and are handed to the model as data).'''
     import contextlib
     import warnings
-    from t4_geom_convert.Kernel.Composition.CompositionConversionMCNPToT4 \
-        import compositionConversionMCNPToT4
     from t4_geom_convert.Kernel.Composition.ConstructCompositionT4 import \
-        constructCompositionT4, extract_isotopes_fractions
+        constructCompositionT4
     from t4_geom_convert.Kernel.FileHandlers.Writer.WriteT4Composition import \
         writeT4Composition
+    convert_cards = repo_attr(
+        't4_geom_convert.Kernel.Composition.CompositionConversionMCNPToT4',
+        'compositionConversionMCNPToT4')
+    fractions_of = repo_attr(
+        't4_geom_convert.Kernel.Composition.ConstructCompositionT4',
+        'extract_isotopes_fractions')
     n = 150 if tier == 'quick' else 1500
     cases, meta = [], []
     with impl.mip_parser(COMP_DECK) as parser:
-        cards = compositionConversionMCNPToT4(parser)
+        # the cards of COMP_DECK as data (C10's business): from the two helpers
+        # when they exist, else the values they give on the unchanged code
+        card_data = COMP_CARDS
+        if convert_cards is not None and fractions_of is not None:
+            try:
+                card_data = [(k, bool(v.atom_fracs),
+                              list(fractions_of(v.isotopes)))
+                             for k, v in convert_cards(parser).items()]
+            except (AttributeError, TypeError):
+                card_data = COMP_CARDS
+        else:
+            skip_helper(res, 'tie:writecomp (card data from constants)',
+                        'compositionConversionMCNPToT4 / '
+                        'extract_isotopes_fractions')
         mcs = clist(
-            f'(mkMcard {cz(k)} {cbool(bool(v.atom_fracs))} '
-            + clist(cpair(cstr(a), cstr(b))
-                    for a, b in extract_isotopes_fractions(v.isotopes)) + ')'
-            for k, v in cards.items())
+            f'(mkMcard {cz(k)} {cbool(atom)} '
+            + clist(cpair(cstr(a), cstr(b)) for a, b in fracs) + ')'
+            for k, atom, fracs in card_data)
         for _ in range(n):
             cells = c09_gen.gen_cells(rng)
             conc = concrete_cells(cells)
@@ -1048,10 +1119,15 @@ def csig(sig):
 
 
 def tie_pipeline(res, tier, rng, real):
-    from t4_geom_convert.Kernel.FileHandlers.Parser.ParseMCNPCell import \
-        ParseMCNPCell
-    from t4_geom_convert.Kernel.Volume.Lattice import LatticeSpec
-    from t4_geom_convert.main import parse_lattice
+    ParseMCNPCell = repo_attr(PARSER_MOD, 'ParseMCNPCell')
+    LatticeSpec = repo_attr('t4_geom_convert.Kernel.Volume.Lattice',
+                            'LatticeSpec')
+    parse_lattice = repo_attr('t4_geom_convert.main', 'parse_lattice')
+    if None in (ParseMCNPCell, LatticeSpec, parse_lattice) \
+            or not hasattr(ParseMCNPCell, 'parse'):
+        skip_helper(res, 'tie:pipeline',
+                    'ParseMCNPCell.parse / LatticeSpec / main.parse_lattice')
+        return
     cases, meta = [], []
     for deck_text, _vols, cells_real, _t4, args in real:
         lattice_opts = [args[i + 1] for i, a in enumerate(args)
@@ -1230,6 +1306,14 @@ def corpus(res):
                                                     'point': list(point)}},
                               found_input=True)
         have = {c['name'] for c in t4.compositions} - {'m0'}
+        orphans = [n for n, _ in t4.geomcomp if n != 'm0' and n not in have]
+        if orphans:
+            good = False
+            res.violation('impl-violation',
+                          f'corpus deck {name} {args}: GEOMCOMP lines {orphans} '
+                          f'have no COMPOSITION of that name ({sorted(have)})',
+                          {'input': {'deck': text, 'args': args}},
+                          found_input=True)
         if len(have) != len(comps) or {name_value(x) for x in have} \
                 != {name_value(x) for x in comps}:
             good = False
@@ -1357,9 +1441,18 @@ def run(res, tier, seed, proofs_ok):
     tracer restricted to the anchored functions: every line of them that is
     not listed as outside the material path must be executed.'''
     import c09_cov
-    cov = c09_cov.LineCov(c09_cov.anchored_functions())
+    try:
+        funcs, absent = c09_cov.anchored_functions()
+        cov = c09_cov.LineCov(funcs)
+    except Exception as exc:        # coverage is information only
+        cov, absent = c09_cov.NoCov(), [f'coverage disabled: {exc!r}']
     _run(res, tier, seed, proofs_ok, cov)
-    total, missing = cov.missing(c09_cov.UNREACHABLE)
+    try:
+        total, missing = cov.missing(c09_cov.UNREACHABLE)
+    except Exception as exc:
+        total, missing, absent = 0, [], absent + [f'coverage failed: {exc!r}']
+    if absent:
+        res.extra['coverage_functions_not_present'] = absent
     res.obligation('coverage: witnesses, corpus and function-level ties '
                    'execute every line of the anchored functions '
                    f'({total} lines of {len(cov.codes)} code objects: '
@@ -1404,9 +1497,11 @@ def replay(path):
                                          inp['material']))
         if 'options' in inp:
             with impl.mip_parser(COMP_DECK) as parser:
-                worker = ParseMCNPCell(parser, None, {})
-                cell = guarded(worker.parse_one_cell_worker, 0, None,
-                               (inp['material'], '-1', inp['options']))
+                one_cell = getattr(make_worker(parser),
+                                   'parse_one_cell_worker', None)
+                cell = ('err', 'helper not present') if one_cell is None \
+                    else guarded(one_cell, 0, None,
+                                 (inp['material'], '-1', inp['options']))
             print('parse_one_cell_worker:', cell if cell[0] == 'err' else
                   (cell[1].materialID, cell[1].density))
     if 'cells' in inp and 'vols' not in inp and 'deck' not in inp:
